@@ -337,6 +337,9 @@ def _bbox_params(tier, rng):
             for pin in ("x", "y"):
                 out.append(dict(res=r, anchor=a, tight=False, tolmode="sym" if a in ("edge", "floating") else "1/100", pin=pin))
         out.append(dict(res=r, anchor="center", tight=True, tolmode="sym", pin="y"))
+        # tight turns snapping off whatever form the anchor takes (numeric and per-axis ones too)
+        out.append(dict(res=r, anchor="fraction", tight=True, tolmode="1/100", pin="x"))
+        out.append(dict(res=r, anchor="xy", tight=True, tolmode="1/100", pin="y"))
     # both axes symbolic at once: a change that couples the axes is seen
     full = []
     if tier == "thorough":
